@@ -1,5 +1,5 @@
 SOURCE_COMMITS = []  # no guarded hook commits: instrumentation is harness-side only
-FIX_COMMITS = ["72224cf", "5e98ecd", "2300819", "45660fa", "ac83a8e", "f5d3225", "01d6c3c", "044fec0", "b901102"]
+FIX_COMMITS = ["72224cf", "5e98ecd", "2300819", "45660fa", "ac83a8e", "f5d3225", "01d6c3c", "044fec0", "b901102", "45ef255", "c6a0d8f", "42e0ef1", "a7f873b"]
 NOTES = "Runtime monitoring of the real repid code; see DESIGN.md. Verdicts are 'held on the executions produced', never proofs."
 NOT_APPLICABLE = {}
 CHECKS = {
@@ -37,6 +37,13 @@ CHECKS = {
         "text": "Recurring jobs run 8-25 consecutive iterations through a real Worker with five duration/lateness profiles (constant, growing, shrinking, saw-tooth, longer than the period), four outcome chains (ok, retry, exhausted, mixed), periods 1 s .. 1 h (process suspended between runs by clock steps), deferred_until none/ahead/past, three brokers. For every completed iteration: exactly one reschedule, counter 0, timestamp == now, now < next <= now + period, next >= scheduled time of the run that just finished + period; one instance of the job afterwards.",
         "note": "Virtual time; fakes; cron unreachable (croniter absent); the scheduled time of the first run is read from the real function at enqueue time and checked against deferred_until / the (now, now+p] window.",
         "ref": "DESIGN.md 5/C06",
+    },
+    "C08": {
+        "level": "exploration",
+        "technique": "runtime monitoring: 15-line reference binder vs. what the real converters would call the actor with (bound to the signature exactly as Python would), differential Basic vs Pydantic, output round-trip, end-to-end sample through a Worker with the default converter",
+        "text": "Generated signatures (<= 5 parameters over the five kinds, defaults, eight annotations, dependency parameters interleaved) x payload shapes (empty string, {}, exact, each required key missing, optional keys missing, extra keys, missing+extra) under BasicConverter and PydanticConverter: each parameter must get its payload entry or its default, extras go only to a catch-all, a payload lacking a parameter without default must fail before the body, both converters must agree, json.loads(convert_outputs(v)) must equal the JSON normal form of v; a sample runs end-to-end with the default converter selection (argument-less jobs on all-default actors).",
+        "note": "Typed payloads only (coercion out of scope); Pydantic v1 converter not exercised.",
+        "ref": "DESIGN.md 5/C08",
     },
     "C09": {
         "level": "exploration",
